@@ -1186,8 +1186,24 @@ func (c *Check) initAfterBase(init *ssa.Function) string {
 		if len(doCalls) == 0 {
 			continue
 		}
+		isBaseErr := func(v ssa.Value) bool {
+			if isFieldLoad(v, "binutils.file", "baseErr") {
+				return true
+			}
+			// the outcome handed back by a helper that runs the once and returns baseErr
+			call, ok := v.(*ssa.Call)
+			if ok && call.Call.StaticCallee() != nil && returnsFieldOfReceiver(call.Call.StaticCallee(), "binutils.file", "baseErr") {
+				return true
+			}
+			if ex, ok := v.(*ssa.Extract); ok {
+				if call, ok := ex.Tuple.(*ssa.Call); ok && call.Call.StaticCallee() != nil && returnsFieldOfReceiver(call.Call.StaticCallee(), "binutils.file", "baseErr") {
+					return true
+				}
+			}
+			return false
+		}
 		reach := reachUnder(g, func(cond ssa.Value) int {
-			if cmp, ok := cond.(*ssa.BinOp); ok && (isFieldLoad(cmp.X, "binutils.file", "baseErr") || isFieldLoad(cmp.Y, "binutils.file", "baseErr")) {
+			if cmp, ok := cond.(*ssa.BinOp); ok && (isBaseErr(cmp.X) || isBaseErr(cmp.Y)) {
 				switch cmp.Op {
 				case token.NEQ:
 					return 1
